@@ -750,7 +750,7 @@ class HEnum:
         return False
 
 
-TIMING_KINDS = ('dur', 'text', 'media', 'both', 'dur+text', 'zero', 'zero-text', 'none', 'nometa', 'nopayload')
+TIMING_KINDS = ('dur', 'text', 'media', 'both', 'dur+text', 'all3', 'zero', 'zero-text', 'none', 'nometa', 'nopayload')
 T_STARTED = {'A': '2020-03-01T10:00:00', 'AB': '2020-03-01T10:07:30', 'C': '2020-03-01T11:00:01', 'D': '2020-03-02T00:00:00'}
 T_ENDED = {'A': '2020-03-01T10:05:00', 'AB': '2020-03-01T10:09:45', 'C': '2020-03-01T11:30:00', 'D': '2020-03-02T00:00:59'}
 
